@@ -402,7 +402,7 @@ void Curve::bezier(const Array<Vec2> points, bool relative) {
     }
     ctrl.count = points.count + 1;
     append_bezier(ctrl);
-    last_ctrl = points[points.count - 2];
+    last_ctrl = ctrl[ctrl.count - 2];
     ctrl.clear();
 }
 
